@@ -508,6 +508,36 @@ def r7_ring(chk, conn):
     f = search_loops(f)  # `return any(a in S for a in bfs)` reads as the search loop it abbreviates
     b = f.params()[1]
     env = Env(f.node)
+    # a sound shortcut: an end atom that takes part in at most one bond cannot be on a ring.  "At most one bond" must count bonds
+    # (n_bonds_with_atom, the number of connected atoms) - not bond orders (bonded_valence is 0 for ligand / dummy bonds)
+    def degree_le_1(t):
+        if isinstance(t, ast.BoolOp) and isinstance(t.op, ast.Or):
+            return all(degree_le_1(v) for v in t.values)
+        if isinstance(t, ast.Compare) and len(t.ops) == 1:
+            l_, r_ = env.expand(t.left), t.comparators[0]
+            cnt = None
+            if isinstance(l_, ast.Call) and norm(l_.func) == "self.n_bonds_with_atom" and len(l_.args) == 1:
+                cnt = norm(l_.args[0])
+            elif isinstance(l_, ast.Call) and call_name(l_) == "len" and len(l_.args) == 1:
+                inner = l_.args[0]
+                while isinstance(inner, ast.Call) and call_name(inner) in ("list", "set", "tuple") and len(inner.args) == 1:
+                    inner = inner.args[0]
+                if isinstance(inner, ast.Call) and norm(inner.func) in ("self.bonds_with_atom", "self.connected_atoms") and len(inner.args) == 1:
+                    cnt = norm(inner.args[0])
+            if cnt in (f"{b}.a1", f"{b}.a2") and isinstance(r_, ast.Constant):
+                return (isinstance(t.ops[0], ast.LtE) and r_.value in (0, 1)) or (isinstance(t.ops[0], ast.Lt) and r_.value in (1, 2)) or (isinstance(t.ops[0], ast.Eq) and r_.value in (0, 1))
+        return False
+
+    body_ = [s_ for s_ in f.node.body if not (isinstance(s_, ast.If) and not s_.orelse and len(s_.body) == 1 and isinstance(s_.body[0], ast.Return)
+                                              and norm(s_.body[0].value) == "False" and degree_le_1(s_.test))]
+    if len(body_) != len(f.node.body):
+        import copy as _copy
+        import dataclasses as _dc
+
+        node_ = _copy.copy(f.node)
+        node_.body = body_
+        f = _dc.replace(f)
+        f.node = node_
     rets = [r for r in walk_no_nested(f.node) if isinstance(r, ast.Return)]
     vals = sorted(norm(r.value) for r in rets if r.value is not None)
     ok = False
